@@ -1,8 +1,8 @@
 (* Properties_C04.v -- C04: nearest-neighbour lookup returns the value at a closest lattice point.
    Only the property theorems, closed by [exact]. *)
 From Coq Require Import ZArith Reals List Bool.
-From Covfie Require Import Stack FloatOps Nearest Refine_Nearest.
-From Covfie.gen Require Import Gen_Nearest.
+From Covfie Require Import Stack FloatOps Nearest Refine_Nearest LinLang Refine_NearestAt.
+From Covfie.gen Require Import Gen_Nearest Gen_NearestAt.
 Import ListNotations.
 Local Open Scope Z_scope.
 
@@ -31,6 +31,21 @@ Theorem C04_narrowing_first_refuted :
   exists x, nn_round Lrintf F64 x = Some 2 /\ flrint F64 x = 3 /\ (Rabs (IZR 2 - realval F64 x) > / 2)%R.
 Proof. exact lrintf_on_double_refuted. Qed.
 
+(* the whole lookup, from the source of this run (gen/Gen_NearestAt.v, nn_at): one backend query, at the component-wise
+   static_cast<index>(std::lrint(c_k)) -- the coordinate the model layer nearest_at queries -- for arbitrary
+   scalar operations and type tags, N = 1..4 *)
+Theorem C04_code_query : forall ops tc tidx tv vals q,
+  (forall x0, nn_query ops tc tidx tv vals q [x0] = nn_model ops tc tidx [x0]) /\
+  (forall x0 x1, nn_query ops tc tidx tv vals q [x0; x1] = nn_model ops tc tidx [x0; x1]) /\
+  (forall x0 x1 x2, nn_query ops tc tidx tv vals q [x0; x1; x2] = nn_model ops tc tidx [x0; x1; x2]) /\
+  (forall x0 x1 x2 x3, nn_query ops tc tidx tv vals q [x0; x1; x2; x3] = nn_model ops tc tidx [x0; x1; x2; x3]).
+Proof.
+  exact (fun ops tc tidx tv vals q =>
+    conj (nearest_at_refines_1 ops tc tidx tv vals q) (conj (nearest_at_refines_2 ops tc tidx tv vals q)
+      (conj (nearest_at_refines_3 ops tc tidx tv vals q) (nearest_at_refines_4 ops tc tidx tv vals q)))).
+Qed.
+
 Print Assumptions C04_lrint_within_half.
+Print Assumptions C04_code_query.
 Print Assumptions C04_nearest_closest.
 Print Assumptions C04_code_rounds_at_coordinate_precision.
